@@ -195,7 +195,6 @@ Definition C11_struct_ok (d : desc) (e : load_err) : bool :=
       nonempty_l ports
       && forallb (fun p => mem_str p ins && mem_str p (U1 cx) && negb (mem_str p (kept cx))) ports
   | EEmptyProc => negb (existsb (fun p => mem_str p (kept cx)) ins)
-                  || existsb (fun p => String.eqb p EmptyString) ins
   | EPathLock _ start lk cap =>
       mem_str start (kept cx) && mem_str cap (Fc cx start)
       && (let cs := d_lock_counts (nd d) cx cap start lk 0 in
@@ -218,9 +217,15 @@ Definition C11_error_ok (d : desc) (e : load_err) : bool :=
   | EBadEdge e => existsb (fun x => list_eqb String.eqb x e && negb (length x =? 2)) (d_edges d)
   | EUndefUnit n => existsb (fun x => (length x =? 2) && mem_str n x) (d_edges d) && negb (mem_ic n (d_names d))
   | ECycle => negb (syntactic_defect {| d_units := d_units d; d_edges := [] |}) && has_cycle d
-  | EAclAssert => existsb (fun x => existsb (fun c => negb (mem_ic c (cap_reg d))) (d_mem x)) (d_units d)
+  | EAclAssert => false                           (* a bare AssertionError is not a documented rejection *)
   | _ => negb (syntactic_defect d) && C11_struct_ok d e
   end.
 (* an acceptance is justified: no syntactic defect, and the result is well-formed and exact *)
 Definition C11_accept_ok (d : desc) (P : proc) : bool :=
   negb (syntactic_defect d) && C09_checkb P && C10_checkb d P.
+
+(* guards of C11 (the two listed findings O2/O3 live exactly outside them) *)
+Definition acl_knownb (d : desc) : bool :=
+  forallb (fun x => forallb (fun c => mem_ic c (cap_reg d)) (d_mem x)) (d_units d).
+Definition names_nonemptyb (d : desc) : bool :=
+  forallb (fun x => negb (String.eqb (d_name x) EmptyString)) (d_units d).
